@@ -340,3 +340,32 @@ Definition parse_archs_skel (n : nat) : res unit :=
    an entry whose cleaned name is "." ------------------------------------------------------------ *)
 Definition not_dot (h : hdr) : bool := negb (clean (h_name h) =? ".").
 Definition sort_headers_fixed (hs : list hdr) : res (list hdr) := sort_headers (filter not_dot hs).
+
+(* ---- build/types ImageConfiguration.Load / parse: the include chain (finding C15-F6) -------
+   Load reads the file at [path], decodes it and, when its `include:` field is set, first
+   loads that path into a fresh configuration (the same way) and merges it. As far as
+   termination goes a file is the value of its include field ("" = none); a path without a
+   file is an error. Result: the files read, outermost first. Nothing in the source bounds
+   the chain: OutOfFuel stands for the recursion that does not end. *)
+Fixpoint load_chain (fuel : nat) (fs : list (string * string)) (path : string) : res (list string) :=
+  match fuel with
+  | O => OutOfFuel
+  | S f =>
+      match alookup path fs with
+      | None => Err
+      | Some inc => if inc =? "" then Ok [path] else do r <- load_chain f fs inc; Ok (path :: r)
+      end
+  end.
+(* the repair (fixes/C15-F6.patch, not applied): Load refuses a path that is already being loaded *)
+Fixpoint load_chain_fixed (fuel : nat) (fs : list (string * string)) (seen : list string) (path : string) : res (list string) :=
+  match fuel with
+  | O => OutOfFuel
+  | S f =>
+      match alookup path fs with
+      | None => Err
+      | Some inc =>
+          if existsb (String.eqb path) seen then Err
+          else if inc =? "" then Ok [path]
+          else do r <- load_chain_fixed f fs (path :: seen) inc; Ok (path :: r)
+      end
+  end.
